@@ -6,7 +6,7 @@
 (*   source  attr (exc.retry_after) | headers (exc.headers) | response     *)
 (*           (exc.response.headers)                                        *)
 (*   shape   container of the header: exact ("Retry-After" key), lower,    *)
-(*           upper, mapping_get_raises, pairs (list of tuples), getter     *)
+(*           upper, mixed (any other casing), mapping_get_raises, pairs (list of tuples), getter     *)
 (*           (non-Mapping object with get), items_only, none, nonstr       *)
 (*           (value is an int, not a string).  "-" for source attr.        *)
 (*   value   category of the supplied value (below).                       *)
@@ -26,7 +26,7 @@
 EXTENDS Integers, Sequences, FiniteSets, TLC, Json
 
 Sources == {"attr", "headers", "response"}
-Shapes == {"exact", "lower", "upper", "mapping_get_raises", "pairs", "getter", "items_only",
+Shapes == {"exact", "lower", "upper", "mixed", "mapping_get_raises", "pairs", "getter", "items_only",
            "none", "nonstr"}
 StrValues == {"empty", "blanks", "d1", "d10", "d308", "d309", "d310", "d4300", "d4301",
               "padded", "plus", "minus", "minus_big", "underscore", "unicode_digit", "decimal",
@@ -48,7 +48,7 @@ ExpectStr(v) ==
       [] OTHER -> "open"
 
 \* is the header visible through this container?
-Visible(shape) == shape \in {"exact", "lower", "upper", "pairs", "getter", "items_only"}
+Visible(shape) == shape \in {"exact", "lower", "upper", "mixed", "pairs", "getter", "items_only"}
 
 Expect(src, shape, v) ==
     IF src = "attr" THEN
